@@ -173,6 +173,15 @@ func (c *Conn) LimitPeerReads(n int) {
 	c.out.mu.Unlock()
 }
 
+// LimitPeerReadsAfter atomically lets the peer read what is already buffered plus
+// extra more bytes of what this end writes from now on; after that it sees EOF.
+func (c *Conn) LimitPeerReadsAfter(extra int) {
+	c.out.mu.Lock()
+	c.out.limit = len(c.out.buf) + extra
+	c.out.cond.Broadcast()
+	c.out.mu.Unlock()
+}
+
 // Unread is the number of bytes this end wrote that the peer has not consumed.
 func (c *Conn) Unread() int {
 	c.out.mu.Lock()
